@@ -7,6 +7,7 @@ import (
 // C05 — components receive exactly their props; front-matter wins; nothing leaks back.
 
 //verif:harness VerifC05_Props quick.maxpaths=60000 thorough.maxpaths=300000 timeout=2400
+//verif:harness VerifC05_Nested quick.maxpaths=20000 thorough.maxpaths=100000 timeout=1800
 //verif:harness VerifC05_Required quick.maxpaths=20000 thorough.maxpaths=100000 timeout=1800
 //verif:harness VerifC05_Shorthand quick.maxpaths=20000 thorough.maxpaths=100000 timeout=1800
 
@@ -204,4 +205,59 @@ func VerifC05_Shorthand() {
 	zzAssert(err1 == nil && err2 == nil, "C05.shorthand.render-error")
 	zzAssert(out1 == out2, "C05.shorthand.equals-explicit-include")
 	zzAssert(strings.Contains(out2, `class="card"`), "C05.shorthand.resolved")
+}
+
+// VerifC05_Nested: a component that includes another component is used
+// several times (side by side, in a loop, and in a second render on the same
+// engine) with different props; every inner instance sees the props of its
+// own outer instance, with their types.
+func VerifC05_Nested() {
+	mode := zzChoice("mode", 3)
+	bound := zzBool("bound")
+	fsys := zzC05FS()
+	if bound {
+		fsys.files["outer.vuego"] = `<div class="outer"><template include="c.vuego" :a="oa" :b="ob"></template>{oa={{ oa }}}</div>`
+	} else {
+		fsys.files["outer.vuego"] = `<div class="outer"><template include="c.vuego" a="x-{{ oa }}" :b="ob"></template>{oa={{ oa }}}</div>`
+	}
+	tpl := NewFS(fsys)
+	pre := "x-"
+	if bound {
+		pre = ""
+	}
+	inner := func(oa, ob, t string) string {
+		return "[a=" + pre + oa + "|b=" + ob + "|fm=FM|both=FMBOTH|inc=INC|t=" + t + "]"
+	}
+	var body string
+	var wants []string
+	switch mode {
+	case 0: // side by side
+		body = `<div><template include="outer.vuego" oa="first" :ob="n1"></template><template include="outer.vuego" oa="second" :ob="s2"></template></div>`
+		wants = []string{inner("first", "1", "int"), inner("second", "two", "string")}
+	case 1: // in a loop
+		body = `<div><p v-for="it in rows"><template include="outer.vuego" :oa="it.name" :ob="it.v"></template></p></div>`
+		wants = []string{inner("r1", "1", "int"), inner("r2", "two", "string")}
+	case 2: // two renders on the same engine
+		body = `<div><template include="outer.vuego" :oa="who" :ob="val"></template></div>`
+	}
+	data := map[string]any{"inc": "INC", "n1": 1, "s2": "two",
+		"rows": []any{map[string]any{"name": "r1", "v": 1}, map[string]any{"name": "r2", "v": "two"}}}
+	if mode < 2 {
+		out, err := zzRender(tpl, body, data)
+		zzNote("out", out)
+		zzAssert(err == nil, "C05.nested.render-error")
+		for _, w := range wants {
+			zzNote("want", w)
+			zzAssert(strings.Contains(out, w), "C05.nested.inner-sees-own-outer-props")
+		}
+		return
+	}
+	data["who"], data["val"] = "alice", 1
+	out1, err1 := zzRender(tpl, body, data)
+	data["who"], data["val"] = "bob", "two"
+	out2, err2 := zzRender(tpl, body, data)
+	zzNote("out", out1+out2)
+	zzAssert(err1 == nil && err2 == nil, "C05.nested.render-error")
+	zzAssert(strings.Contains(out1, inner("alice", "1", "int")), "C05.nested.first-render")
+	zzAssert(strings.Contains(out2, inner("bob", "two", "string")), "C05.nested.second-render-sees-own-props")
 }
